@@ -12,6 +12,79 @@ import (
 // raise of the cut-off, the replay loop over the remote buffer image, and their
 // order. The hand model is EventBuf.witnessRemote / raiseMin / flatten / handleAll.
 
+// ppCanonicalNames renames, by ROLE, the variables the generated text mentions, so that
+// a renaming of locals, of the receiver or of the parameters does not change it:
+// receiver → d, parameters → buf, isJoin; the decoded message (whose .Events the replay
+// loop ranges over) → pp; the loop variables → slot, event; the local that receives
+// eventJoinIgnore.Load() → eventJoinIgnore; the message handed to handleUserEvent → userEvent.
+func ppCanonicalNames(fd *ast.FuncDecl) {
+	names := map[*ast.Object]string{}
+	set := func(id *ast.Ident, name string) {
+		if id != nil && id.Obj != nil && id.Name != "_" {
+			if _, done := names[id.Obj]; !done {
+				names[id.Obj] = name
+			}
+		}
+	}
+	if fd.Recv != nil && len(fd.Recv.List) == 1 && len(fd.Recv.List[0].Names) == 1 {
+		set(fd.Recv.List[0].Names[0], "d")
+	}
+	k := 0
+	for _, f := range fd.Type.Params.List {
+		for _, n := range f.Names {
+			if k < 2 {
+				set(n, []string{"buf", "isJoin"}[k])
+			}
+			k++
+		}
+	}
+	ast.Inspect(fd.Body, func(n ast.Node) bool {
+		switch x := n.(type) {
+		case *ast.AssignStmt:
+			if len(x.Lhs) == 1 && len(x.Rhs) == 1 && strings.Contains(exprString(x.Rhs[0]), ".eventJoinIgnore.Load()") {
+				if id, ok := x.Lhs[0].(*ast.Ident); ok {
+					set(id, "eventJoinIgnore")
+				}
+			}
+		case *ast.RangeStmt:
+			sel, ok := x.X.(*ast.SelectorExpr)
+			if !ok || sel.Sel.Name != "Events" {
+				return true
+			}
+			calls := false
+			ast.Inspect(x.Body, func(m ast.Node) bool {
+				if ce, ok := m.(*ast.CallExpr); ok && strings.HasSuffix(exprString(ce.Fun), ".handleUserEvent") {
+					calls = true
+					if len(ce.Args) == 1 {
+						if u, ok := ce.Args[0].(*ast.UnaryExpr); ok {
+							if id, ok := u.X.(*ast.Ident); ok {
+								set(id, "userEvent")
+							}
+						}
+					}
+				}
+				return true
+			})
+			if !calls {
+				return true
+			}
+			if base, ok := sel.X.(*ast.Ident); ok && base.Obj != nil { // the outer loop: pp.Events
+				if _, named := names[base.Obj]; !named {
+					set(base, "pp")
+					if v, ok := x.Value.(*ast.Ident); ok {
+						set(v, "slot")
+					}
+				}
+			}
+			if v, ok := x.Value.(*ast.Ident); ok { // the inner loop: slot.Events (outer one already named)
+				set(v, "event")
+			}
+		}
+		return true
+	})
+	renameVars(fd, names)
+}
+
 func genPushPullReplay(repo string) (string, error) {
 	_, f, err := parseFile(repo + "/serf/delegate.go")
 	if err != nil {
@@ -21,6 +94,7 @@ func genPushPullReplay(repo string) (string, error) {
 	if fd == nil || fd.Body == nil {
 		return "", fmt.Errorf("delegate.MergeRemoteState not found")
 	}
+	ppCanonicalNames(fd)
 	type shape struct {
 		witnessGuard, witnessArg                     string
 		raiseGuard, raiseTest, raiseAssign           string
